@@ -31,7 +31,38 @@ Definition pins : list string := ["usim/_primitives/context.py:CancelScope.__ini
   "usim/_primitives/context.py:InterruptScope.<attrs>";
   "usim/_primitives/task.py:Task.__init__";
   "usim/_primitives/concurrent_exception.py:Concurrent.__new__";
-  "usim/_primitives/concurrent_exception.py:Concurrent.__init__"].
+  "usim/_primitives/concurrent_exception.py:Concurrent.__init__";
+  "usim/_primitives/concurrent_exception.py:<module>";
+  "usim/_primitives/concurrent_exception.py:Concurrent.<attrs>";
+  "usim/_primitives/concurrent_exception.py:MetaConcurrent.<attrs>";
+  "usim/_primitives/concurrent_exception.py:MetaConcurrent.__getitem__";
+  "usim/_primitives/concurrent_exception.py:MetaConcurrent.__instancecheck__";
+  "usim/_primitives/concurrent_exception.py:MetaConcurrent.__new__";
+  "usim/_primitives/concurrent_exception.py:MetaConcurrent.__subclasscheck__";
+  "usim/_primitives/concurrent_exception.py:MetaConcurrent._get_specialisation";
+  "usim/_primitives/task.py:<module>";
+  "usim/_primitives/task.py:CancelTask.<attrs>";
+  "usim/_primitives/task.py:CancelTask.__init__";
+  "usim/_primitives/task.py:CancelTask.__transcript__";
+  "usim/_primitives/task.py:Done.<attrs>";
+  "usim/_primitives/task.py:Done.__bool__";
+  "usim/_primitives/task.py:Done.__init__";
+  "usim/_primitives/task.py:Done.__invert__";
+  "usim/_primitives/task.py:Done.__set_done__";
+  "usim/_primitives/task.py:NotDone.<attrs>";
+  "usim/_primitives/task.py:NotDone.__bool__";
+  "usim/_primitives/task.py:NotDone.__init__";
+  "usim/_primitives/task.py:Task.<attrs>";
+  "usim/_primitives/task.py:Task.__await__";
+  "usim/_primitives/task.py:Task.__close__";
+  "usim/_primitives/task.py:Task.__del__";
+  "usim/_primitives/task.py:Task.__exception__";
+  "usim/_primitives/task.py:Task.cancel";
+  "usim/_primitives/task.py:Task.done";
+  "usim/_primitives/task.py:Task.status";
+  "usim/_primitives/task.py:TaskCancelled.<attrs>";
+  "usim/_primitives/task.py:TaskCancelled.__init__";
+  "usim/_primitives/task.py:try_close"].
 (** the functions the model of C05 was transcribed from are unchanged in /repo *)
 Lemma src_unchanged : forallb pin_ok pins = true.
 Proof. vm_compute. reflexivity. Qed.
